@@ -917,11 +917,30 @@ def main():
                     fns.append(fn)
     else:
         fns = EXTRACTORS.get(a.prop.upper(), [])
+    # One extractor failing must not keep the others from regenerating their files.  Two kinds of failure:
+    #  * a *translation unit* (gen_src_<Unit>: a function body translated by tools/rs2lean*.py) whose text can no longer be
+    #    translated (construct outside the subset, pinned header gone): the translator has nothing to say about the new
+    #    text.  Reported as `gen_tables-unavailable:` (exit status unaffected): for these functions the tie falls back to
+    #    the hand-written mirror model + correspondence run (./check escalates the budget and does not count the theorems
+    #    about the stale generated copy).  This is not a broken proof obligation: no statement about the current text failed.
+    #  * everything else (constants, tables, use-site statements of constants; theorem modules built here): a broken
+    #    source-extracted obligation, exit 1.
+    hard, unavailable = [], []
     for fn in fns:
-        fn(repo)
+        try:
+            fn(repo)
+        except SystemExit as e:
+            if e.code in (0, None):
+                continue
+            if fn.__name__.startswith("gen_src_"):
+                unavailable.append(fn.__name__[len("gen_src_"):])
+            else:
+                hard.append(fn.__name__)
     if a.json:
         print("gen_tables-json: " + json.dumps(REPORT, sort_keys=True))
-    sys.exit(0)
+    if unavailable:
+        print("gen_tables-unavailable: " + json.dumps(sorted(set(unavailable))))
+    sys.exit(1 if hard else 0)
 
 
 if __name__ == "__main__":
